@@ -68,10 +68,15 @@ NoNext == FALSE /\ UNCHANGED vars
 Runs == ndJsonDeserialize(IOEnv.TRACE_FILE)
 SeqSet(q) == {q[i] : i \in 1..Len(q)}
 \* the VMX expectation is a set of slots (the reader returns the file names sorted); the others are sequences of indices
-RunOK(r) == CASE r.kind = "vmx"  -> SeqSet(r.reported) = VmxDisks(SeqSet(r.body)) /\ Len(r.reported) = Cardinality(VmxDisks(SeqSet(r.body)))
-              [] r.kind = "ovf"  -> r.reported = OvfDisks(r.body, Len(r.body.items))
-              [] r.kind = "vbox" -> r.reported = VbDisks(r.body, Len(r.body))
-              [] r.kind = "pvs"  -> r.reported = PvsDisks(r.body, Len(r.body))
+ListOK(r, l) == CASE r.kind = "vmx"  -> SeqSet(l) = VmxDisks(SeqSet(r.body)) /\ Len(l) = Cardinality(VmxDisks(SeqSet(r.body)))
+                  [] r.kind = "ovf"  -> l = OvfDisks(r.body, Len(r.body.items))
+                  [] r.kind = "vbox" -> l = VbDisks(r.body, Len(r.body))
+                  [] r.kind = "pvs"  -> l = PvsDisks(r.body, Len(r.body))
+\* a peek (first element of a fresh listing, or nothing) agrees with the complete listing
+PeekOK(r) == /\ Len(r.peek) = (IF Len(r.reported) = 0 THEN 0 ELSE 1)
+             /\ Len(r.peek) = 1 => (IF r.kind = "vmx" THEN r.peek[1] \in SeqSet(r.reported) ELSE r.peek[1] = r.reported[1])
+\* the listing is a function of the configuration: every call on the same object reports it, whatever was called before
+RunOK(r) == ListOK(r, r.reported) /\ PeekOK(r) /\ ListOK(r, r.again)
 TInit == cfg = 1 /\ expect = 0
 TStep == /\ cfg \in 1..Len(Runs)
          /\ IF RunOK(Runs[cfg]) THEN PrintT(<<"ACCEPT", Runs[cfg].tid>>) ELSE PrintT(<<"REJECT", Runs[cfg].tid, 1, Runs[cfg].kind>>)
